@@ -35,6 +35,8 @@ class Lin:
         return Lin(self.c * k, {s: v * k for s, v in self.t.items()})
 
     def __eq__(self, o):
+        if not isinstance(o, (Lin, int, Fraction)):
+            return False
         o = _lin(o)
         return self.c == o.c and self.t == o.t
 
